@@ -17,6 +17,18 @@
  *      -> FR <the R fields up to referr> <opens> <closes> <leak>
  *   F W|w <open> <tree> <flags> <sched> <serhex>   json_object_to_file_ext | json_object_to_file
  *      -> FW <rc> <msg> <writes> <delivered> <ser> <opens> <closes> <leak>
+ *   P <init> <step>;<step>...              a history on an in-memory FILE SYSTEM: open() honours
+ *        init = '-' | <c>=<hex|->,...      O_CREAT / O_EXCL / O_TRUNC / O_APPEND and the access mode as the
+ *        step = w/<c>/<tree>/<flags>/<sched>/<serhex>   kernel does; <c> is a one-letter path
+ *             | v/<c>/<tree>/0/<sched>/<serhex>         w: json_object_to_file_ext, v: json_object_to_file
+ *             | r/<c>/<sched>                           r: json_object_from_file
+ *      -> per step, joined by " | ":
+ *         w <rc> <msg> <writes> <opens> <closes> <oflags> <file>
+ *         r <result|NULL> <msg> <reads> <pcalls> <pdepth> <pbuf> <ref|NULL|ABSENT> <referr> <opens> <closes> <oflags> <file>
+ *         end <leak> <c>=<hex|->,...|-       (the whole file system, in creation order)
+ *      <oflags>: what the library passed to open(): R|W|B (access) then C T A X for O_CREAT O_TRUNC
+ *      O_APPEND O_EXCL, '-' if open() was not called; <file>: the path's contents after the step
+ *      (hex, '-' empty, ABSENT); ref: the in-memory parse of the contents before the step
  *   S <tree> <flags>                       serialization only (used by the generator)
  *      -> S <ser>
  * msg: json_util_get_last_err() != NULL after the call (the message is cleared before it);
@@ -67,6 +79,7 @@ static struct {
 	const char *sched; long rep_n, rep_left;
 	long reads, writes, opens, closes, badfd;
 	int open_ok, open_errno, fail_errno;
+	int fsmode, file, rd, wr, app; size_t off; int oflags, oflags_seen;
 	long pcalls; int pdepth; unsigned char *pbuf; size_t plen;
 } vf;
 
@@ -109,12 +122,55 @@ static long sched_next(void)
 	return n;
 }
 
+/* the in-memory file system of the P lines (survives vf_reset between the steps of a line) */
+#define NFILES 8
+static struct { char name; int used; unsigned char *data; size_t len, cap; } vfs[NFILES];
+static int vfs_n;
+
+static int vfs_find(char name)
+{
+	int i;
+	for (i = 0; i < vfs_n; i++) if (vfs[i].used && vfs[i].name == name) return i;
+	return -1;
+}
+static int vfs_create(char name)
+{
+	if (vfs_n >= NFILES) return -1;
+	vfs[vfs_n].name = name; vfs[vfs_n].used = 1; vfs[vfs_n].len = 0; vfs[vfs_n].cap = 64;
+	vfs[vfs_n].data = (unsigned char *)malloc(64);
+	return vfs_n++;
+}
+static void vfs_put(int f, size_t off, const unsigned char *b, size_t n)
+{
+	if (off + n > vfs[f].cap) {          /* no realloc here: json_util.c #undefs the rename */
+		size_t cap = 2 * (off + n) + 64;
+		unsigned char *d = (unsigned char *)malloc(cap);
+		memcpy(d, vfs[f].data, vfs[f].len);
+		free(vfs[f].data);
+		vfs[f].data = d; vfs[f].cap = cap;
+	}
+	if (n) memcpy(vfs[f].data + off, b, n);
+	if (off + n > vfs[f].len) vfs[f].len = off + n;
+}
+static void vfs_clear(void)
+{
+	int i;
+	for (i = 0; i < vfs_n; i++) free(vfs[i].data);
+	vfs_n = 0;
+}
+static char path_name(const char *path)
+{
+	const char *sl = strrchr(path, '/');
+	return sl ? sl[1] : path[0];
+}
+
 static ssize_t vf_read(int fd, void *buf, size_t count)
 {
 	long x;
 	size_t n, avail = vf.len - vf.pos;
 	vf.reads++;
 	if (fd != THE_FD) vf.badfd++;
+	if (vf.fsmode && !vf.rd) { errno = EBADF; return -1; }
 	x = sched_next();
 	if (x == -1) { if (vf.fail_errno) errno = vf.fail_errno; return -1; }
 	n = (x == -2) ? count : ((size_t)(x < 0 ? 0 : x) < count ? (size_t)(x < 0 ? 0 : x) : count);
@@ -132,19 +188,39 @@ static ssize_t vf_write(int fd, const void *buf, size_t count)
 	size_t n;
 	vf.writes++;
 	if (fd != THE_FD) vf.badfd++;
+	if (vf.fsmode && !vf.wr) { errno = EBADF; return -1; }
 	x = sched_next();
 	if (x == -1) { if (vf.fail_errno) errno = vf.fail_errno; return -1; }
 	n = (x == -2) ? count : ((size_t)(x < 0 ? 0 : x) < count ? (size_t)(x < 0 ? 0 : x) : count);
 	if (vf.devlen + n > vf.devcap) { vf.devoverflow = 1; n = vf.devcap - vf.devlen; }
 	if (n) memcpy(vf.dev + vf.devlen, buf, n);
 	vf.devlen += n;
+	if (vf.fsmode) {                     /* the file receives the bytes where the kernel puts them */
+		size_t at = vf.app ? vfs[vf.file].len : vf.off;
+		vfs_put(vf.file, at, (const unsigned char *)buf, n);
+		vf.off = at + n;
+	}
 	return (ssize_t)n;
 }
 
 static int vf_open(const char *path, int flags, ...)
 {
-	(void)path; (void)flags;
 	vf.opens++;
+	vf.oflags = flags; vf.oflags_seen = 1;
+	if (vf.fsmode) {
+		int acc = flags & O_ACCMODE, f = vfs_find(path_name(path));
+		if (f < 0) {
+			if (!(flags & O_CREAT)) { errno = ENOENT; return -1; }
+			if ((f = vfs_create(path_name(path))) < 0) { errno = ENOSPC; return -1; }
+		} else {
+			if ((flags & O_CREAT) && (flags & O_EXCL)) { errno = EEXIST; return -1; }
+			if ((flags & O_TRUNC) && acc != O_RDONLY) vfs[f].len = 0;
+		}
+		vf.file = f; vf.off = 0;
+		vf.rd = acc != O_WRONLY; vf.wr = acc != O_RDONLY; vf.app = (flags & O_APPEND) != 0;
+		vf.data = vfs[f].data; vf.len = vfs[f].len; vf.pos = 0;
+		return THE_FD;
+	}
 	if (!vf.open_ok) { errno = vf.open_errno; return -1; }
 	return THE_FD;
 }
@@ -286,6 +362,114 @@ static void do_read(int file, const char *open_tok, const char *hex, const char 
 	if (vf.badfd) printf(" BADFD");
 }
 
+/* ---- P: histories on the in-memory file system ---- */
+static void put_oflags(void)
+{
+	int acc = vf.oflags & O_ACCMODE;
+	if (!vf.oflags_seen) { putchar('-'); return; }
+	putchar(acc == O_RDONLY ? 'R' : acc == O_WRONLY ? 'W' : 'B');
+	if (vf.oflags & O_CREAT) putchar('C');
+	if (vf.oflags & O_TRUNC) putchar('T');
+	if (vf.oflags & O_APPEND) putchar('A');
+	if (vf.oflags & O_EXCL) putchar('X');
+}
+static void put_file(char name)
+{
+	int f = vfs_find(name);
+	if (f < 0) printf("ABSENT"); else puthex(vfs[f].data, vfs[f].len);
+}
+
+static void do_history(char *init, char *steps, long live0)
+{
+	char *save = NULL, *tok, path[] = "/verif-c20/?.json";
+	int first = 1, i, badfd = 0, overflow = 0;
+	vfs_n = 0;
+	if (strcmp(init, "-") != 0)
+		for (tok = strtok_r(init, ",", &save); tok; tok = strtok_r(NULL, ",", &save)) {
+			size_t n; unsigned char *b = unhex(tok + 2, &n);
+			int f = vfs_create(tok[0]);
+			if (f >= 0) vfs_put(f, 0, b, n);
+			free(b);
+		}
+	save = NULL;
+	for (tok = strtok_r(steps, ";", &save); tok; tok = strtok_r(NULL, ";", &save)) {
+		char *s2 = NULL, *kind = strtok_r(tok, "/", &s2), *pc = strtok_r(NULL, "/", &s2);
+		if (!first) printf(" | ");
+		first = 0;
+		if (!kind || !pc) { printf("BADSTEP"); break; }
+		path[11] = pc[0];
+		if (kind[0] == 'w' || kind[0] == 'v') {
+			char *tree = strtok_r(NULL, "/", &s2), *fl = strtok_r(NULL, "/", &s2), *sc = strtok_r(NULL, "/", &s2);
+			int bad = 0, rc, msg;
+			struct json_object *o;
+			const char *s0;
+			if (!tree || !fl || !sc) { printf("BADSTEP"); break; }
+			o = tree_of(tree, &bad);
+			if (bad) { printf("BADTREE"); json_object_put(o); break; }
+			s0 = json_object_to_json_string_ext(o, atoi(fl));
+			vf_reset(sc);
+			vf.fsmode = 1;
+			vf.devcap = 2 * (s0 ? strlen(s0) : 0) + 64;
+			vf.dev = (unsigned char *)malloc(vf.devcap);
+			rc = kind[0] == 'v' ? json_object_to_file(path, o) : json_object_to_file_ext(path, o, atoi(fl));
+			msg = json_util_get_last_err() != NULL;
+			printf("w %d %d %ld %ld %ld ", rc, msg, vf.writes, vf.opens, vf.closes);
+			put_oflags(); putchar(' '); put_file(pc[0]);
+			json_object_put(o);
+			free(vf.dev);
+		} else {
+			char *sc = strtok_r(NULL, "/", &s2);
+			struct json_object *o;
+			int msg, f = vfs_find(pc[0]);
+			if (!sc) { printf("BADSTEP"); break; }
+			vf_reset(sc);
+			vf.fsmode = 1;
+			o = json_object_from_file(path);
+			msg = json_util_get_last_err() != NULL;
+			printf("r ");
+			if (o) jv_dump(o); else printf("NULL");
+			printf(" %d %ld %ld ", msg, vf.reads, vf.pcalls);
+			if (vf.pcalls) { printf("%d ", vf.pdepth); puthex(vf.pbuf, vf.plen); } else printf("- -");
+			putchar(' ');
+			/* the reference: the contents (a read does not change them), parsed from memory */
+			if (f < 0) printf("ABSENT -");
+			else {
+				struct json_tokener *t2 = json_tokener_new_ex(JSON_TOKENER_DEFAULT_DEPTH);
+				size_t n = vfs[f].len;
+				unsigned char *copy = (unsigned char *)malloc(n ? n : 1);
+				struct json_object *o2;
+				memcpy(copy, vfs[f].data, n);
+				o2 = json_tokener_parse_ex(t2, (const char *)copy, (int)n);
+				if (o2) jv_dump(o2); else printf("NULL");
+				printf(" e%d", (int)json_tokener_get_error(t2));
+				if (o2) json_object_put(o2);
+				json_tokener_free(t2);
+				free(copy);
+			}
+			printf(" %ld %ld ", vf.opens, vf.closes);
+			put_oflags(); putchar(' '); put_file(pc[0]);
+			if (o) json_object_put(o);
+			free(vf.pbuf);
+		}
+		badfd |= vf.badfd != 0; overflow |= vf.devoverflow;
+	}
+	printf(" | end ");
+	{
+		long leak;
+		int n = vfs_n;
+		/* print after computing the leak: the table's own blocks are not the library's */
+		unsigned char *datas[NFILES]; size_t lens[NFILES]; char names[NFILES];
+		for (i = 0; i < n; i++) { datas[i] = vfs[i].data; lens[i] = vfs[i].len; names[i] = vfs[i].name; }
+		leak = xa_live - live0 - n;
+		printf("%ld ", leak);
+		if (!n) putchar('-');
+		for (i = 0; i < n; i++) { if (i) putchar(','); printf("%c=", names[i]); puthex(datas[i], lens[i]); }
+		vfs_clear();
+	}
+	if (badfd) printf(" BADFD");
+	if (overflow) printf(" DEVOVERFLOW");
+}
+
 void run_case(char *rest)
 {
 	char *save = NULL;
@@ -314,6 +498,10 @@ void run_case(char *rest)
 			if (!tree || !fl || !sc) { printf("BADLINE"); return; }
 			do_write(1, which[0], op_ok, tree, atoi(fl), sc, live0);
 		}
+	} else if (strcmp(op, "P") == 0) {
+		char *init = strtok_r(NULL, " ", &save), *steps = strtok_r(NULL, " ", &save);
+		if (!init || !steps) { printf("BADLINE"); return; }
+		do_history(init, steps, live0);
 	} else if (strcmp(op, "S") == 0) {
 		char *tree = strtok_r(NULL, " ", &save), *fl = strtok_r(NULL, " ", &save);
 		int bad = 0;
